@@ -21,7 +21,7 @@ RAW = None
 _NAMES = ('ensure_aw', 'loop_in_thread', '_get_loop_lock', 'run_aw_threadsafe')
 _TR = transform.Asyncify(lambda qual, n: qual.split('.')[0] in _NAMES, local_rule=True)
 M = loader.load('aiuti/asyncio.py', 'aiuti_asyncio_modeT_xloop', extra_passes=[_TR],
-                rebind={'Lock': stubs.VLock, 'ThreadPoolExecutor': simloop.VExecutor, 'sleep': simloop.vsleep,
+                rebind={**stubs.MODE_T_REBIND, 'ThreadPoolExecutor': simloop.VExecutor, 'sleep': simloop.vsleep,
                         'queue': simloop.VQueueModule},
                 class_bases={'DaemonTask': '_vf_SimTask'}, inject={'_vt': vt, '_vf_SimTask': simloop.SimTask})
 try:
